@@ -11,6 +11,9 @@ Cases (JSON):
   {"k": "multi", "w": "sic"|"lru", "max": m, "valid": v|None, "mk": [maker, ...], "h": [["c", j, argspec] | ["t", d], ...]}
       several decorated functions, function j made by mk[j]: "bare" (deco(f)), "direct" (deco(f, **options)) or
       ["factory", g] (configured decorator object number g = deco(**options), made once per case, applied to every function naming g)
+  {"k": "dfs", "ops": [op, ...]}   DataFrame session over objects: ["s", "list"|"tuple"|"rel", [value idx, ...]] new schema object,
+      ["f", s] frame built ON schema object s, ["app", s, v] / ["set0", s, v] / ["pop", s] change schema object s in place,
+      ["g", f, "column_names"|"columncount"] lookup on frame f (indices into DFVALS; objects are numbered in order of creation)
   any sequential/conc case may carry "via": "direct" (default) | "factory": how its single wrapper is made
 xev = ["c", argspec, [xev, ...], raises] | ["t", d]: IF the call invokes the wrapped function, that invocation first performs the
   nested events (clock advances, further calls of the same wrapper whose exceptions it catches) and then raises (raises = true)
@@ -74,9 +77,9 @@ LEVEL_NOTE = ("Trusted: Coq kernel + vm_compute; the granularity assumption (one
 DESIGN_REF = "DESIGN.md section 8, C19"
 COQ_IMPORTS = "From Orso Require Import Model.C19."
 COQ_CHECKS = {"sic": "c19_sic_check", "lru": "c19_lru_check", "conc": "c19_conc_check", "sicx": "c19_sicx_check", "lrx": "c19_lrx_check",
-              "msic": "c19_msic_check", "mlru": "c19_mlru_check"}
+              "msic": "c19_msic_check", "mlru": "c19_mlru_check", "dfs": "c19_dfs_check"}
 COQ_SHOW = {"sic": "c19_sic_show", "lru": "c19_lru_show", "conc": "c19_conc_show", "sicx": "c19_sicx_show", "lrx": "c19_lrx_show",
-            "msic": "c19_msic_show", "mlru": "c19_mlru_show"}
+            "msic": "c19_msic_show", "mlru": "c19_mlru_show", "dfs": "c19_dfs_show"}
 RULE = ("sequential: histories of calls over an argument alphabet (positional, keyword, mixed, reordered keywords, ==-equal values of "
         "different type, unhashable values for the single-item cache) interleaved with clock advances below/at/above the validity period, "
         "max_size 1..4, exhaustive to a stated depth then random; concurrent: the real wrapper under the line scheduler, all interleavings "
@@ -638,8 +641,68 @@ def run_threads(calls, code, table, sched_spec, clock, watch=None):
 SCHEMAS = [["a", "b"], ["c"], ["a", "d", "e"], ["z", "y", "x", "w"]]
 
 
+# column entries of the DataFrame sessions: distinguishable values, several of them ==-equal (1 == 1.0 == True, 0 == False,
+# 2 == 2.0); their str() are pairwise different, so an answer decodes to exactly one list of indices
+DFVALS = ["k", "v", "x", 1, 1.0, True, 0, False, 2, 2.0, "extra"]
+DF_STR = {str(v): i for i, v in enumerate(DFVALS)}
+DF_STRINGS = [i for i, v in enumerate(DFVALS) if isinstance(v, str)]
+assert len(DF_STR) == len(DFVALS)
+
+
+def _rel_col(i):
+    from orso.schema import FlatColumn
+    from orso.types import OrsoTypes
+
+    return FlatColumn(name=DFVALS[i], type=OrsoTypes.VARCHAR)
+
+
+def run_dfs(case):
+    from orso.dataframe import DataFrame
+    from orso.schema import RelationSchema
+
+    schemas, frames, outs = [], [], []
+    for op in case["ops"]:
+        t = op[0]
+        if t == "s":
+            if op[1] == "rel":
+                schemas.append(RelationSchema(name="t", columns=[_rel_col(i) for i in op[2]]))
+            else:
+                vals = [DFVALS[i] for i in op[2]]
+                schemas.append(vals if op[1] == "list" else tuple(vals))
+        elif t == "f":
+            frames.append(DataFrame(rows=[], schema=schemas[op[1]]))
+        elif t in ("app", "set0", "pop"):
+            obj = schemas[op[1]]
+            rel = not isinstance(obj, (list, tuple))
+            target = obj.columns if rel else obj
+            if not isinstance(target, list):
+                raise ValueError("in-place change of an immutable schema object")
+            if t == "app":
+                target.append(_rel_col(op[2]) if rel else DFVALS[op[2]])
+            elif t == "set0":
+                if target:
+                    target[0] = _rel_col(op[2]) if rel else DFVALS[op[2]]
+            elif target:
+                target.pop()
+        elif t == "g":
+            try:
+                r = getattr(frames[op[1]], op[2])
+                if op[2] == "column_names":
+                    ok = isinstance(r, tuple) and all(isinstance(x, str) for x in r)
+                    outs.append({"names": [DF_STR.get(x, -1) for x in r] if ok else None, "raw": repr(r)[:120]})
+                else:
+                    outs.append({"count": r if isinstance(r, int) and not isinstance(r, bool) else None, "raw": repr(r)[:120]})
+            except Exception as e:
+                outs.append({"exc": type(e).__name__})
+        else:
+            raise KeyError(t)
+    return {"outs": outs}
+
+
 def observe(case):
     k = case["k"]
+    if k == "dfs":
+        return run_dfs(case)
     sh = shapes() if k in ("conc", "df") else None
     with Patched() as clock:
         if k in ("sic", "lru"):
@@ -962,6 +1025,47 @@ def oracle_multi(case, obs):
     return None
 
 
+def oracle_dfs(case, obs):
+    """column_names / columncount are memoised per FRAME (frames are equal only to themselves): the answer is the value the
+    property's function produced for THIS frame - the one held when this frame was also the last one asked, otherwise
+    what this frame's own schema object spells now.  Never an answer computed for another frame."""
+    schemas, frames = [], []
+    held = {"column_names": None, "columncount": None}
+    it = iter(obs["outs"])
+    for i, op in enumerate(case["ops"]):
+        t = op[0]
+        if t == "s":
+            schemas.append(list(op[2]))
+        elif t == "f":
+            frames.append(op[1])
+        elif t == "app":
+            schemas[op[1]].append(op[2])
+        elif t == "set0":
+            if schemas[op[1]]:
+                schemas[op[1]][0] = op[2]
+        elif t == "pop":
+            if schemas[op[1]]:
+                schemas[op[1]].pop()
+        else:
+            o = next(it)
+            f, attr = op[1], op[2]
+            now = list(schemas[frames[f]])
+            truth = now if attr == "column_names" else len(now)
+            if held[attr] is not None and held[attr][0] == f:
+                want = held[attr][1]
+            else:
+                want = truth
+                held[attr] = (f, truth)
+            got = o.get("names") if attr == "column_names" else o.get("count")
+            if "exc" in o:
+                return f"op {i}: frame {f}.{attr} raised {o['exc']}"
+            if got != want:
+                show = lambda v: [DFVALS[j] if j >= 0 else "?" for j in v] if isinstance(v, list) else v
+                return (f"op {i}: frame {f}.{attr} answered {o['raw']}; the value produced for this frame is {show(want)} "
+                        f"(its schema object spells {show(now)} now); the answer served was not produced for this frame")
+    return None
+
+
 def oracle_df(case, obs):
     for tid, (fi, o) in enumerate(zip(case["thr"], obs["thr"])):
         if "exc" in o:
@@ -973,7 +1077,7 @@ def oracle_df(case, obs):
 
 
 def oracle(case, obs):
-    return {"sic": oracle_sic, "lru": oracle_lru, "conc": oracle_conc, "df": oracle_df, "sicx": oracle_x, "lrx": oracle_x, "multi": oracle_multi}[case["k"]](case, obs)
+    return {"sic": oracle_sic, "lru": oracle_lru, "conc": oracle_conc, "df": oracle_df, "sicx": oracle_x, "lrx": oracle_x, "multi": oracle_multi, "dfs": oracle_dfs}[case["k"]](case, obs)
 
 
 # ---------------------------------------------------------------- Coq literals
@@ -1042,6 +1146,25 @@ def to_coq(case, obs):
             "(%s, %s, (%s : list (ckey * Z)))" % (L.boolean(c["hit"]), c_res(c["res"]), L.lst(L.pair(c_key(kk), L.Z(ts)) for kk, ts in c["keys"]))
             for c in obs["calls"])
         return ("lru", "(%s, %s, %s, %s, %s)" % (L.nat(case["max"]), c_valid(case["valid"]), L.Z(T0), c_hist(case["h"]), o))
+    if k == "dfs":
+        if any("exc" in o or o.get("names", 0) is None or o.get("count", 0) is None or -1 in (o.get("names") or []) for o in obs["outs"]):
+            return None
+        zl = lambda xs: "(%s : list Z)" % L.lst(L.Z(x) for x in xs)
+        def c_op(op):
+            t = op[0]
+            if t == "s":
+                return "(DSchema %s)" % zl(op[2])
+            if t == "f":
+                return "(DFrame %s)" % L.nat(op[1])
+            if t == "app":
+                return "(DApp %s %s)" % (L.nat(op[1]), L.Z(op[2]))
+            if t == "set0":
+                return "(DSet0 %s %s)" % (L.nat(op[1]), L.Z(op[2]))
+            if t == "pop":
+                return "(DPop %s)" % L.nat(op[1])
+            return "(%s %s)" % ("DNames" if op[2] == "column_names" else "DCount", L.nat(op[1]))
+        outs = "(%s : list dfout)" % L.lst(("(ONames %s)" % zl(o["names"])) if "names" in o else "(OCount %s)" % L.nat(o["count"]) for o in obs["outs"])
+        return ("dfs", "((%s : list dfop), %s)" % (L.lst(c_op(op) for op in case["ops"]), outs))
     if k == "multi":
         if not _plain(obs["calls"]) or any(c["fn"] < 0 for c in obs["calls"]):
             return None
@@ -1109,6 +1232,10 @@ def nontrivial_key(case, obs):
         if not any(o["sub"] or "exc" in o for o in fl):
             return None
         return repr(case)
+    if k == "dfs":
+        if len([op for op in case["ops"] if op[0] == "f"]) < 2 or not obs["outs"]:
+            return None
+        return repr(case)
     if k == "multi":
         if len({e[1] for e in case["h"] if e[0] == "c"}) < 2 or not any(o.get("hit") for o in obs["calls"]):
             return None
@@ -1141,6 +1268,18 @@ def classify(case, obs):
             yield "clock-advanced"
         if k == "lru" and any(len(o.get("keys", [])) == case["max"] for o in obs["calls"]):
             yield "lru:full"
+    elif k == "dfs":
+        ops = case["ops"]
+        if any(op[0] in ("app", "set0", "pop") for op in ops):
+            yield "dfs:schema-object-changed-in-place"
+        fr = [op[1] for op in ops if op[0] == "f"]
+        if len(fr) != len(set(fr)):
+            yield "dfs:two-frames-on-one-schema-object"
+        sch = [op for op in ops if op[0] == "s"]
+        if any(a is not b and [DFVALS[i] for i in a[2]] == [DFVALS[i] for i in b[2]] and a[2] != b[2] for a in sch for b in sch):
+            yield "dfs:equal-but-distinguishable-schemas"
+        if any(op[1] == "rel" for op in sch):
+            yield "dfs:RelationSchema"
     elif k == "multi":
         yield "multi:" + case["w"]
         yield "functions=%d" % len(case["mk"])
@@ -1199,6 +1338,55 @@ def M(j, spec):
 
 
 F0, F1 = ["factory", 0], ["factory", 1]
+G = lambda f, a: ["g", f, "column_names" if a == "n" else "columncount"]
+
+
+def dfs_family(quick):
+    """Frame 0 on a schema object, looked up; then frame 1 on (a) the SAME object changed in place, (b) the same object
+    unchanged, (c) a new ==-equal object spelling other names (1/1.0/True), (d) a new equal copy, (e) a new different one;
+    then every sequence of <= 2 lookups over both frames and both properties."""
+    K, V, X = 0, 1, 2
+    firsts = [("list", [K, V]), ("list", [3, 8]), ("tuple", [5, 7]), ("rel", [K, V]), ("list", [])]
+    lookups = [[G(f, a)] for f in (0, 1) for a in "nc"]
+    lookups += [x + y for x in list(lookups) for y in list(lookups)]
+    for kind, vals in firsts:
+        seconds = [[["f", 0]], [["s", kind, list(vals)], ["f", 1]], [["s", kind, [X]], ["f", 1]]]
+        if kind != "tuple":
+            seconds += [[["app", 0, 10], ["f", 0]], [["set0", 0, X], ["f", 0]], [["pop", 0], ["f", 0]], [["f", 0], ["app", 0, X]]]
+        if vals == [3, 8]:
+            seconds += [[["s", "list", [4, 9]], ["f", 1]], [["s", "tuple", [5, 9]], ["f", 1]]]
+        if vals == [5, 7]:
+            seconds += [[["s", "tuple", [3, 6]], ["f", 1]], [["s", "list", [4, 6]], ["f", 1]]]
+        for first in ([G(0, "n")], [G(0, "c")], [G(0, "n"), G(0, "c")]):
+            for sec in seconds:
+                for lk in lookups:
+                    if quick and len(lk) == 2 and lk[0][1] == lk[1][1] == 0:
+                        continue
+                    yield {"k": "dfs", "ops": copy.deepcopy([["s", kind, vals], ["f", 0]] + first + sec + lk)}
+
+
+def _random_dfs(rng):
+    ops, kinds = [], []
+    nf = 0
+    for _ in range(rng.randint(4, 14)):
+        r = rng.random()
+        if not kinds or r < 0.2:
+            kind = rng.choice(["list", "list", "tuple", "rel"])
+            pool = DF_STRINGS if kind == "rel" else list(range(len(DFVALS)))
+            ops.append(["s", kind, [rng.choice(pool) for _ in range(rng.randint(0, 3))]])
+            kinds.append(kind)
+        elif nf == 0 or r < 0.4:
+            ops.append(["f", rng.randrange(len(kinds))])
+            nf += 1
+        elif r < 0.6:
+            s = rng.randrange(len(kinds))
+            if kinds[s] == "tuple":
+                continue
+            pool = DF_STRINGS if kinds[s] == "rel" else list(range(len(DFVALS)))
+            ops.append(rng.choice([["app", s, rng.choice(pool)], ["set0", s, rng.choice(pool)], ["pop", s]]))
+        else:
+            ops.append(G(rng.randrange(nf), rng.choice("nc")))
+    return {"k": "dfs", "ops": ops}
 
 
 def interleavings(n0, n1):
@@ -1266,6 +1454,10 @@ def corpus():
     yield {"k": "lrx", "max": 2, "valid": 5, "h": [X(a0), X(a1, [Tk(3), X(kx1, [X(a0), Tk(3), X(mixed, [], True)]), X(a1)]), X(a1), X(kx1)]}
     yield {"k": "sicx", "valid": None, "h": [X(a1), X(a0, [], True), X(a1), X(a0, [X(a1), X(kx1)]), X(a0), X(kx1)]}
     yield {"k": "sicx", "valid": 2, "h": [X(a1, [Tk(1), X(a1, [Tk(2)], True), X(a0)]), X(a1), Tk(2), X(a1)]}
+    # round 6: a header list changed in place between two frames; ==-equal schemas spelling different names
+    yield {"k": "dfs", "ops": [["s", "list", [0, 1]], ["f", 0], G(0, "n"), G(0, "c"), ["app", 0, 10], ["f", 0], G(1, "n"), G(1, "c"), G(0, "n"), G(0, "c")]}
+    yield {"k": "dfs", "ops": [["s", "list", [3, 8]], ["f", 0], G(0, "n"), ["s", "list", [4, 9]], ["f", 1], G(1, "n"), ["s", "tuple", [5, 8]], ["f", 2], G(2, "n"), G(0, "n")]}
+    yield {"k": "dfs", "ops": [["s", "rel", [0, 1]], ["f", 0], G(0, "n"), ["app", 0, 2], ["f", 0], G(1, "n"), G(1, "c"), G(0, "c")]}
     # round 5: one configured decorator object applied to two functions, equal arguments in succession; bare next to it
     yield {"k": "multi", "w": "sic", "valid": 60, "mk": [F0, F0, "direct"], "h": [M(0, a1), M(1, a1), M(2, a1), M(0, a1), M(1, a1), M(1, mixed), M(0, mixed)]}
     yield {"k": "multi", "w": "sic", "valid": None, "mk": [F0, F0, "bare", "bare"], "h": [M(0, a1), M(1, a1), M(2, a1), M(3, a1), M(0, a1), M(3, a1)]}
@@ -1316,6 +1508,8 @@ def exhaustive(tier):
                 for j in range(0, nl):
                     yield {"k": "conc", "w": "lru", "max": 2, "valid": V, "pre": pre, "thr": thr,
                            "sched": [0] * i + [Tk(V + 1)] + [1] * j + [0] * 12 + [1] * 12}
+        # round 6: DataFrame sessions over objects (schema objects shared, changed in place, equal but distinguishable)
+        yield from dfs_family(quick)
         # round 5: several decorated functions.  Two functions, every history of depth <= 3 over {function 0 / 1} x {two packs}
         # + a tick of the validity period, for every way of making the two wrappers: one configured decorator object for
         # both (depth 3), two configured objects, decorator applied with options directly, mixed, bare (default options)
@@ -1563,6 +1757,8 @@ def generate(rng, tier):
             yield _random_x(rng)
         if i % 5 == 2:
             yield _random_multi(rng)
+        if i % 5 == 3:
+            yield _random_dfs(rng)
         if i % 20 == 10:
             yield _rand_full(rng)
 
@@ -1580,6 +1776,7 @@ def search(rng):
         yield _random_case(rng, i)
         yield _random_x(rng)
         yield _random_multi(rng)
+        yield _random_dfs(rng)
         if i % 3 == 0:
             yield _rand_full(rng)
         i += 1
@@ -1601,6 +1798,12 @@ def _shrink_forest(h):
 
 def shrink(case):
     k = case["k"]
+    if k == "dfs":
+        ops = case["ops"]
+        for i in range(len(ops) - 1, -1, -1):
+            if ops[i][0] in ("g", "app", "set0", "pop"):
+                yield dict(case, ops=ops[:i] + ops[i + 1:])
+        return
     if k == "multi":
         h = case["h"]
         for i in range(len(h)):
